@@ -53,10 +53,10 @@ META = dict(
          "- for node tables passing the executable test leftRankOk g r k R (every reference that can be entered without prior "
          "consumption - an And's operands up to and including the first that `consumes`, all alternatives, wrapper children, "
          "Forward targets, stop_on, ignorables - goes to smaller rank; operands after a consuming operand may refer anywhere, "
-         "so Forward cycles through a consuming step are allowed; no SkipTo; StringStart without ignorables), under Advancing, "
+         "so Forward cycles through a consuming step are allowed; all kinds incl. SkipTo; StringStart without ignorables), under Advancing, "
          "_parse does not answer hang for every fuel > (len+1-loc)*(R+1) + r id (lexicographic induction on remaining input "
          "and rank); recursive_terminates_checked_partial with advOk. PARTIAL: "
-         "tables with SkipTo and left-recursive tables are outside the recursive theorem (the latter rightly), the harness "
+         "left-recursive tables are outside the recursive theorem (rightly: the code recurses for ever), the harness "
          "evaluates only the acyclic tests on extracted grammars (leftRankOk needs a rank, not computed), Advancing is a semantic hypothesis "
          "(advOk decides only a sufficient fragment: SkipTo, Opt, lookaheads, anchors as bodies are not recognised), the "
          "theorem is about the "
